@@ -348,8 +348,8 @@ def rule_utils(repo: Repo, rep: Report) -> int:
     for cplx in (False, True):
         for batched in (False, True):
             atoms = {"torch.is_complex(x)": cplx, "is_batched": batched, "self.mode == 'db'": True, "noise_power < eps": False}
-            v, _ = run_fn(repo, fi, {"x": SV("sig", ONE, src="x"), "y": SV("sig", ONE, src="y")}, atoms)
-            judge("DB-KIND", fi, f"SignalToNoiseRatio.forward (dB, {'complex' if cplx else 'real'}, {'batched' if batched else 'single'})", v, "db", E("x") / E("(y-x)"))
+            v, it_m = run_fn(repo, fi, {"x": SV("sig", ONE, src="x"), "y": SV("sig", ONE, src="y")}, atoms)
+            judge("DB-KIND", fi, f"SignalToNoiseRatio.forward (dB, {'complex' if cplx else 'real'}, {'batched' if batched else 'single'})", v, "db", E("x") / E("(y-x)"), it_m)
             n += 1
     ci = repo.cls(BM, "StandardMetrics")
     fi = repo.method(ci, "signal_to_noise_ratio")
@@ -381,6 +381,21 @@ def run(repo: Repo, rep: Report, tier: str) -> None:
     n += rule_fading_noise(repo, rep)
     n += rule_utils(repo, rep)
     n += rule_memo(repo, rep)
+    # the SNR helpers are pure: a helper that writes into its argument changes the caller's configured value (a channel
+    # that hands over its stored snr_db tensor then works at another SNR on every further call)
+    from ..effects import input_writes
+
+    for f_ in repo.module(SNRU).functions.values():
+        params_ = [p_ for p_ in f_.params if p_ not in ("self", "cls")]
+        if not params_:
+            continue
+        ws_ = list(input_writes(repo, f_, None, tensor_params=params_))
+        n += 1
+        if ws_:
+            node_, how_, who_ = ws_[0]
+            rep.violation("DB-KIND", f_, f"{f_.name}: {unparse(node_)[:70]}", f"{how_} writes through a value that may share storage with the argument `{sorted(who_)[0]}`: the caller's tensor (a configured SNR / power) is modified by the conversion, so a second use of the same tensor - e.g. the next forward of a channel that stores it - sees another value", node=node_)
+        else:
+            rep.ok("DB-KIND", f_, f"{f_.name}: arguments", "not modified", nontrivial=False)
     # the noise of successive uses is independent: no fork / re-seed / state restore around the draws
     from ..speciallint import lint_rng_discipline
 
